@@ -16,7 +16,27 @@ def main(argv):
     os.environ.setdefault('GEMDAT_VERIF', '1')
     os.environ.setdefault('OMP_NUM_THREADS', '1')
     try:
-        mod = importlib.import_module(f'harness.{pid.lower()}')
+        try:
+            mod = importlib.import_module(f'harness.{pid.lower()}')
+        except (ImportError, AttributeError) as e:
+            tb = traceback.format_exc()
+            if 'gemdat' not in tb:
+                raise
+            # a function or class of /repo that the correspondence check drives (an anchor of the property) no longer
+            # exists under that name: the correspondence is broken and no input can be searched for through it
+            from harness import core
+            what = f'correspondence: cannot import what the check drives: {type(e).__name__}: {e}'
+            path = core.write_replay(pid, {'property': pid, 'no_failing_input_found': True, 'broken': what, 'traceback': tb[-2000:],
+                                           'searched_evaluations': 0})
+            tier = os.environ.get('VERIF_TIER', mode) if mode in ('quick', 'thorough') else 'quick'
+            core.write_evidence(pid, {'property_id': pid, 'tier': tier if tier in ('quick', 'thorough') else 'quick',
+                                      'seed': int(os.environ.get('VERIF_SEED', '0')), 'level': 'proof',
+                                      'coverage': {'obligations': 1, 'discharged': 0, 'checker_cmd': 'import of the harness module', 'trusted_base': [],
+                                                   'theorems': [], 'evaluations': 0, 'distinct_nontrivial': 0, 'rule': 'nothing could be run', 'samples': [what],
+                                                   'broken_obligation': what},
+                                      'wall_s': 0.0, 'violations': 1})
+            print(f'VIOLATION property={pid} replay={path.relative_to(core.VERIF)} no-failing-input-found')
+            return 1
         from harness import core
         if mode == 'replay':
             return core.run_replay(mod.SPEC, argv[2])
